@@ -1,6 +1,6 @@
 (* binary64 instances of the rounded-_ListDict_ theorems (rnd := rnd53, eps := 2^-53:
    no hypothesis about the rounding is left) and concrete histories. *)
-From EoNV Require Import Prelude Samp ListDict ListDictP ListDictF ListDictFP ListDictFPr ListDictFP2.
+From EoNV Require Import Prelude Samp ListDict ListDictP ListDictF ListDictFP ListDictFPr ListDictFPr2 ListDictFP2 ListDictFP4.
 From Coq Require Import Qabs Lqa.
 
 Section B64.
@@ -44,6 +44,13 @@ Lemma b64_refines_fresh : forall (ops : list (op K)) (s : ld K),
 Proof.
   intros ops s. destruct eps53_range as [H0 H1].
   apply (ldf_refines_fresh K Keqb Keqb_spec rnd53 eps53 H0 H1 rnd53_err rnd53_proper_eq).
+Qed.
+Lemma b64_max_weight_bounds : forall (ops : list (op K)) (s : ld K),
+  Forall (op_ok K true) ops -> ldf_run K Keqb rnd53 (ld_empty true) ops = Ok s ->
+  forall k, wread K s k <= maxw s \/ wt s k = None.
+Proof.
+  intros ops s. destruct eps53_range as [H0 H1].
+  apply (ldf_max_weight_bounds K Keqb Keqb_spec rnd53 eps53 H0 H1 rnd53_err rnd53_proper_eq rnd53_idem).
 Qed.
 End B64.
 
